@@ -238,18 +238,19 @@ func metaFilename(filename string) string {
 func (fs *filestore) Walk(ctx context.Context, bucket string, cb func(ctx context.Context, filename string, fInfo os.FileInfo) error) error {
 	root := filepath.Join(fs.gcsDir, bucket)
 	return filepath.Walk(root, func(path string, fInfo os.FileInfo, err error) error {
-		if strings.HasSuffix(path, metaExtention) {
-			// Ignore metadata files
-			return nil
-		}
-
 		filename := strings.TrimPrefix(path, root)
 		filename = strings.TrimPrefix(filename, string(os.PathSeparator))
+		// Look at the walk error first: a missing bucket is reported here, whatever its name.
 		if err != nil {
 			if os.IsNotExist(err) {
 				return err
 			}
 			return fmt.Errorf("walk error at %s: %w", filename, err)
+		}
+
+		if strings.HasSuffix(path, metaExtention) {
+			// Ignore metadata files
+			return nil
 		}
 
 		if err := cb(ctx, filename, fInfo); err != nil {
